@@ -84,11 +84,11 @@ theorem Good.binOnce {tl tr Ll Lr nl nr} {b : BinOp} {p : Nat} (hp : b.prec = p)
 /-- the unparenthesised text of a node -/
 def body (c : Ctx) : Expr → List Tok
   | .lit l => l.sign.toks ++ [.lit l.tok]
-  | .un u e => .op u.tok :: render true ⟨.un u, none⟩ e
+  | .un u e => .op u.tok :: render .wide ⟨.un u, none⟩ e
   | .bin b l r =>
-    render true ⟨.bin b false (decide (l = r)), childGp c⟩ l ++
-      .op b.tok :: render true ⟨.bin b true true, childGp c⟩ r
-  | e => render true c e
+    render .wide ⟨.bin b false (decide (l = r)), childGp c⟩ l ++
+      .op b.tok :: render .wide ⟨.bin b true true, childGp c⟩ r
+  | e => render .wide c e
 
 def wrappedSign (c : Ctx) : Option UnOp → Bool
   | some u => parenSign true u c
@@ -114,7 +114,7 @@ def natLevel : Expr → Nat
 
 def lvl (c : Ctx) (e : Expr) : Nat := if wrapped c e then 9 else natLevel e
 
-theorem render_eq (c : Ctx) (e : Expr) : render true c e = wrap (wrapped c e) (body c e) := by
+theorem render_eq (c : Ctx) (e : Expr) : render .wide c e = wrap (wrapped c e) (body c e) := by
   cases e with
   | lit l =>
     simp only [render, wrapped, body]
@@ -122,9 +122,9 @@ theorem render_eq (c : Ctx) (e : Expr) : render true c e = wrap (wrapped c e) (b
     | none =>
       have : l.sign = .none := by cases hs : l.sign <;> simp_all [Sign.unop]
       simp [wrap, this, Sign.toks, wrappedSign]
-    | some u => simp [wrappedSign]
-  | un u e => simp [render, wrapped, body]
-  | bin b l r => simp [render, wrapped, body]
+    | some u => simp [wrappedSign, parenSignM]
+  | un u e => simp [render, wrapped, body, parenSignM]
+  | bin b l r => simp [render, wrapped, body, WMode.fixedBin]
   | part n a nx => simp [wrapped, body, wrap]
   | call f a => simp [wrapped, body, wrap]
   | nil => simp [wrapped, body, wrap]
